@@ -72,6 +72,24 @@ func (x *FnExec) call(in ssa.Instruction, c *ssa.CallCommon, st *State) (Val, bo
 		args = append(args, x.value(a))
 	}
 	callee = c.StaticCallee()
+	var bindings []ssa.Value
+	if mc, ok := c.Value.(*ssa.MakeClosure); ok {
+		bindings = mc.Bindings
+	}
+	x.curBindings = bindings
+	if callee == nil {
+		// a function value returned by a contracted function: contract "<callee>#<result index>"
+		if ex, ok := c.Value.(*ssa.Extract); ok {
+			if cc, ok := ex.Tuple.(*ssa.Call); ok {
+				if f := cc.Common().StaticCallee(); f != nil {
+					key := fmt.Sprintf("%s#%d", f.String(), ex.Index)
+					if con := x.eng.cs.Funcs[key]; con != nil {
+						return x.applyContractSig(in, con, key, sig, nil, args, st), true
+					}
+				}
+			}
+		}
+	}
 	if callee == nil {
 		// package-level function variable initialised once with a function (e.g. osmomath.MinDec)
 		if u, ok := c.Value.(*ssa.UnOp); ok {
@@ -143,7 +161,7 @@ func (x *FnExec) unknownCall(sig *types.Signature, st *State, name string) Val {
 	pb := x.ctx.Fresh("panics", SBool)
 	ps := st.clone()
 	ps.reach = x.ctx.Define("R_panic", SBool, And(st.reach, pb))
-	x.panics = append(x.panics, exitRec{st: ps, what: "uncontracted callee " + shortName(name)})
+	x.panics = append(x.panics, exitRec{st: ps, what: "uncontracted callee " + shortName(name), final: x.inDefers, nDefers: len(x.deferStack)})
 	st.reach = x.ctx.Define("R", SBool, And(st.reach, Not(pb)))
 	x.havocAll(st)
 	var rs []Val
@@ -184,6 +202,7 @@ func (x *FnExec) havocAll(st *State) {
 // applyContractSig uses a callee's contract at a call site.
 func (x *FnExec) applyContractSig(in ssa.Instruction, con *Contract, calleeName string, sig *types.Signature, ifaceRecv types.Type, args []Val, st *State) Val {
 	n := x.callN
+	bindingsAtCall := x.curBindings
 	short := shortName(calleeName)
 	if i := strings.LastIndex(short, "/"); i >= 0 {
 		short = short[i+1:]
@@ -222,8 +241,31 @@ func (x *FnExec) applyContractSig(in ssa.Instruction, con *Contract, calleeName 
 				}
 			}
 		}
+		env.lets = map[string]CExpr{}
 		for _, l := range con.Lets {
-			env.vars[l.Name] = env.Eval(l.E)
+			env.lets[l.Name] = l.E
+		}
+		// free variables of a closure called where it was made: bound to the captured cells
+		if fnc := x.eng.funcs[con.Key]; fnc != nil && len(fnc.FreeVars) == len(bindingsAtCall) && len(bindingsAtCall) > 0 {
+			env.resolver = func(name string) (TVal, bool) {
+				for i, fv := range fnc.FreeVars {
+					if fv.Name() == name {
+						if p, ok := fv.Type().(*types.Pointer); ok {
+							bv := x.value(bindingsAtCall[i])
+							return TVal{env.load(bv.T, p.Elem()), p.Elem()}, true
+						}
+					}
+				}
+				return TVal{}, false
+			}
+			env.refOf = func(name string) (TVal, bool) {
+				for i, fv := range fnc.FreeVars {
+					if fv.Name() == name {
+						return TVal{x.value(bindingsAtCall[i]), fv.Type()}, true
+					}
+				}
+				return TVal{}, false
+			}
 		}
 		return env
 	}
@@ -250,26 +292,53 @@ func (x *FnExec) applyContractSig(in ssa.Instruction, con *Contract, calleeName 
 			x.assertHit[k] = true
 		}
 	}
-	// 2. panics
+	// 2. panics; 3. havoc. With on_panic clauses the panic state is the havocked state
+	// constrained by them (the callee's effects up to the panic), otherwise the pre-call state.
+	ptyp := ""
+	if con.PanicTyp != nil {
+		ptyp = envPre.scalar(envPre.Eval(con.PanicTyp), "panic_typ")
+	}
+	var pcond Term = "false"
 	if con.PanicsIff != nil {
-		p := envPre.EvalBool(con.PanicsIff.E)
-		x.panicIf(st, p, "callee "+short+" panics")
+		pcond = envPre.EvalBool(con.PanicsIff.E)
 	} else if con.MayPanic {
 		pb := x.ctx.Fresh("panics", SBool)
 		var must []Term
 		for _, pi := range con.PanicsIf {
 			must = append(must, envPre.EvalBool(pi.E))
 		}
-		x.panicIf(st, Or(pb, Or(must...)), "callee "+short+" may panic")
+		pcond = Or(pb, Or(must...))
 	}
-	// 3. havoc
-	if con.ModAll {
-		x.havocAll(st)
-	} else {
-		for _, m := range con.Modifies {
-			x.havocLoc(envPre, st, m)
+	doHavoc := func(s *State) {
+		if con.ModAll {
+			x.havocAll(s)
+		} else {
+			for _, m := range con.Modifies {
+				x.havocLoc(envPre, s, m)
+			}
 		}
 	}
+	if pcond != "false" {
+		what := "callee " + short + " panics"
+		if con.PanicsIff == nil {
+			what = "callee " + short + " may panic"
+		}
+		if len(con.OnPanic) > 0 {
+			ps := st.clone()
+			doHavoc(ps)
+			envP := mkEnv(nil, ps.heaps, pre.heaps, pre.alloc)
+			var facts []Term
+			for _, c := range con.OnPanic {
+				facts = append(facts, envP.EvalBool(c.E))
+			}
+			ps.reach = x.ctx.Define("R_panic", SBool, And(st.reach, pcond, And(facts...)))
+			x.panics = append(x.panics, exitRec{st: ps, what: what, ptyp: ptyp, final: x.inDefers, nDefers: len(x.deferStack)})
+			st.reach = x.ctx.Define("R", SBool, And(st.reach, Not(pcond)))
+		} else {
+			x.panicIfTyp(st, pcond, what, ptyp)
+		}
+	}
+	doHavoc(st)
 	var rs []Val
 	for _, t := range resultTypes(sig) {
 		rs = append(rs, x.freshVal("r_"+short, t, true))
@@ -424,8 +493,16 @@ func (x *FnExec) builtin(in ssa.Instruction, b *ssa.Builtin, c *ssa.CallCommon, 
 	case "print", "println":
 		return Val{}
 	case "recover":
-		// outside a deferred call during panicking recover returns nil
-		return x.zero(c.Signature().Results().At(0).Type())
+		// recover() returns the panic value while panicking (and stops the panic), nil otherwise
+		hp := x.getHeap(st, "ghost:panicking", false)
+		ht := x.getHeap(st, "ghost:panicTyp", false)
+		isP := Eq(Sel(hp, "0"), "1")
+		typ := x.ctx.Define("rec_typ", SInt, Ite(isP, Sel(ht, "0"), "0"))
+		val := x.ctx.Fresh("rec_val", SInt)
+		x.ctx.Assert(Implies(Eq(typ, "0"), Eq(val, "0")))
+		x.ctx.Assert(Implies(isP, Gt(Sel(ht, "0"), "0")))
+		x.setGhost(st, "panicking", "0")
+		return Comp(IntV(typ), IntV(val))
 	case "ssa:wrapnilchk":
 		a := x.value(c.Args[0])
 		x.panicIf(st, Eq(a.T, "0"), "nil receiver in wrapper")
@@ -510,6 +587,8 @@ func (x *FnExec) runDefers(st *State) {
 	}
 	// deferred calls run in LIFO order; each is executed as an ordinary call under the
 	// condition that its defer statement was reached
+	x.inDefers = true
+	defer func() { x.inDefers = false }()
 	for i := len(x.deferStack) - 1; i >= 0; i-- {
 		d := x.deferStack[i]
 		sub := st.clone()
